@@ -175,3 +175,15 @@ claim("C17",
       "whose text contains the word 'fcharset' are outside the quantifier.",
       "Rocq proof (list arithmetic on lines) + exact-output differential check + parse-back of assembled pages",
       "DESIGN.md section 6 C17")
+claim("C20",
+      "Theorems (Coq): with the advances and kerning pairs dumped from the bundled fonts, for every font and every string "
+      "the model width is >= 0 and never decreases when a character is appended (unbounded over strings; finite facts on "
+      "the dumped tables); empty string = 0; unit conversions exact in rational arithmetic; names and numbers resolve to "
+      "the same font, unsupported fonts/units refused; the monospaced font has one advance and no kerning. Against the "
+      "implementation: the model's width must equal get_string_width exactly (1/64 px) at the reference size; units, "
+      "name/number, append-monotonicity, 1% scaling across sizes 4..48, mono = count x advance and rejections are checked "
+      "on random strings.",
+      "C20_partial: scaling with the font size (FreeType hinting) is a sampled relation, not a theorem; Pillow/FreeType are "
+      "the oracle for the dumped metrics; U+00AD (zero-advance format character) is outside the domain.",
+      "Rocq proof (fold invariants + finite reflection on dumped font metrics) + exact differential check at the reference size",
+      "DESIGN.md section 6 C20")
